@@ -6,11 +6,13 @@
 import RoModel.DriverCore
 import RoModel.Drivers.Op
 import RoModel.Drivers.Subject
+import RoModel.Drivers.SubjLin
 namespace Ro.Driver
 
 def handlers : List (String × (Case → String)) := [
   ("op", Drivers.Op.run),
-  ("subject", Drivers.Subject.run)
+  ("subject", Drivers.Subject.run),
+  ("subjlin", Drivers.SubjLin.run)
 ]
 
 def runCase (c : Case) : String :=
